@@ -17,6 +17,8 @@ invalid cases    : bad name / bad module / different object under an existing fu
                    object, or one that is itself already registered under another name, or Gin's
                    wrapper of it) / unknown allow- or denylist name / both lists -> raises, and a
                    probe of the registry (old names, new names, the objects) is unchanged.
+                   (the list faults are also tried as a second registration of the same object
+                   under the full name it already has: rejected, first registration intact)
 interactive cases: re-registration is rejected outside, accepted inside an interactive block
                    (context manager left normally or by exception, or enter/exit calls) and
                    rejected again after it; the name is used through scoped access paths before
@@ -55,7 +57,8 @@ RULE = ('target cases: class shape or callable kind (31 kinds, generated as sour
         '(10 bad names / modules incl. two that end in a newline, a fresh object under an existing full name via 3 spellings, '
         'an object -- or Gin\'s wrapper of it -- that is already registered under another name '
         'put under a full name held by a different object, unknown allow/deny names, both '
-        'lists). interactive cases: exit in {normal, exception after / before the '
+        'lists -- the three list faults also as a SECOND registration of an object that is already '
+        'validly registered under that very full name). interactive cases: exit in {normal, exception after / before the '
         're-registration, explicit enter/exit} x scope x which scoped access paths touch the name '
         'before the re-registration (all five access paths are checked after it); rejected '
         'registrations of classes with Gin-registered methods also probe the method\'s selectors '
@@ -734,6 +737,8 @@ EXCLUDE_NEWLINE_NAME_AFTER_DECORATION = False
 FAULTS = ['bad_name', 'bad_module', 'duplicate', 'duplicate_registered', 'unknown_allow',
           'unknown_deny', 'both_lists']
 DUP_FAULTS = ('duplicate', 'duplicate_registered')
+LIST_FAULTS = ('unknown_allow', 'unknown_deny', 'both_lists')
+SECOND_INJ = SENTINEL + ':d0:first-registration'
 OTHER_FULL = 'pk.one.nm1'
 PRIOR = [('pk.mod', 'f0'), ('pk', 'K1'), ('other', 'nm')]
 
@@ -820,6 +825,7 @@ def check_invalid(case):
     raise OutOfDomain('cell not in domain')
   variant = int(case.get('variant', 0))
   interactive = bool(case.get('interactive')) and fault not in DUP_FAULTS
+  second = bool(case.get('second')) and fault in LIST_FAULTS
   labels = {'kind:invalid', 'fault:' + fault, 'api:' + api, 'shape:' + kind,
             'target:class' if KINDS[kind][0] else 'target:callable'}
   priors = make_prior(int(case.get('prior', 0)) % 4)
@@ -886,6 +892,13 @@ def check_invalid(case):
       lists = {'allowlist': params[:1], 'denylist': params[1:2]}
       if variant % 2:
         lists = {k: tuple(v) for k, v in lists.items()}
+    if second:
+      # the object is first registered validly as pk.mod.nm (any API) and gets a binding; the
+      # faulty call is then a SECOND registration of the very same object under that full name
+      first_api = APIS[(variant // 6) % 3]
+      do_register(first_api, 'name_module', obj)
+      gin.bind_parameter(f'pk.mod.{NM}.d0', SECOND_INJ)     # every tagged kind has d0
+      labels.update({'second-registration-of-same-object', 'second:first-api-' + first_api})
   # probe names: every suffix of every old full name, of the intended full name and of the
   # names the object would get by default -- well-formed dotted identifiers only
   intended = '.'.join(x for x in (module, name) if x)
@@ -909,8 +922,29 @@ def check_invalid(case):
     objects.append(('method', new.K.__dict__['meth']))
   before_vars = snap(obj)
   before = probe(names, objects)
-  if priors or existing is not None:
+  if priors or existing is not None or second:
     labels.add('invalid:registry-nonempty')
+
+  def first_registration_intact(when):
+    """pk.mod.nm, by name and by object, still calls this object and injects its binding."""
+    for how, getter in (('selector', lambda: gin.get_configurable('pk.mod.' + NM)),
+                        ('object', lambda: gin.get_configurable(obj))):
+      try:
+        out = call(getter(), [], {})
+      except (ValueError, LookupError) as e:
+        raise Violation('registry-version-unreachable', f'{when}: {how}: {e}')
+      require(out[0] == 'ok', 'registry-call-raised', lambda: f'{when}: {how}: {out[1]!r}')
+      res = out[1]
+      if KINDS[kind][0]:
+        ok_obj = isinstance(res, new.K)
+        d0 = new._rec(res).get('d0') if ok_obj else None    # pylint: disable=protected-access
+      else:
+        ok_obj, d0 = res.get('@') == MOD_A, res.get('d0')
+      require(ok_obj and d0 == SECOND_INJ, 'first-registration-changed',
+              lambda: f'{when}: pk.mod.{NM} through the {how} gives {res!r} (d0={d0!r})')
+
+  if second:
+    first_registration_intact('before the faulty second registration')
 
   ctx = gin.config.interactive_mode() if interactive else contextlib.nullcontext()
   if interactive:
@@ -952,7 +986,11 @@ def check_invalid(case):
     require(who == MOD_A, 'rejected-registration-changed-registry',
             f'get_configurable(first holder) now reaches the object of {who}')
   require(not interactive or _interactive_is_off(), 'interactive-mode-not-ended', 'after the block')
-  if fault not in DUP_FAULTS:
+  if second:
+    first_registration_intact('after the rejected second registration')
+  # (a valid re-registration of the same object under its own name is not part of the statement
+  # and is not attempted)
+  if fault not in DUP_FAULTS and not second:
     # nothing was registered, so the very same object can now be registered normally under the
     # (free) valid name and is reached through name and object like any fresh registration
     try:
@@ -1177,7 +1215,7 @@ def _invalid_case(draw):
   return {'kind': 'invalid', 'target': draw(st.sampled_from(INVALID_TARGETS)),
           'api': draw(st.sampled_from(APIS)), 'fault': draw(st.sampled_from(FAULTS)),
           'variant': draw(st.integers(0, 161)), 'prior': draw(st.integers(0, 3)),
-          'interactive': draw(st.booleans())}
+          'interactive': draw(st.booleans()), 'second': draw(st.booleans())}
 
 
 @st.composite
@@ -1238,7 +1276,14 @@ def sweep_invalid(tier):
     for variant in range(nvar):
       for interactive in ((False, True) if fault not in DUP_FAULTS and variant < 2 else (False,)):
         cases.append({'kind': 'invalid', 'target': target, 'api': api, 'fault': fault,
-                      'variant': variant, 'prior': 2, 'interactive': interactive})
+                      'variant': variant, 'prior': 2, 'interactive': interactive, 'second': False})
+    if fault in LIST_FAULTS:
+      # the same faults as a second registration of an already registered object: every first
+      # API (variant // 6) x list form, inside and outside interactive mode
+      for variant, interactive in itertools.product(range(18) if full else (0, 7, 14),
+                                                    (False, True)):
+        cases.append({'kind': 'invalid', 'target': target, 'api': api, 'fault': fault,
+                      'variant': variant, 'prior': 1, 'interactive': interactive, 'second': True})
   return cases, True
 
 
